@@ -1,7 +1,7 @@
 (* The serializer's output seen as a token stream, and the well-formedness conditions of the round trip
    (C02).  Definitions only. *)
 From Delb.Base Require Import PyStr PyDict.
-From Delb.Gen Require Import GenNames GenNs GenValidators.
+From Delb.Gen Require Import GenNames GenNs GenValidators GenNsValidators.
 From Delb.Tree Require Import ATree Merge.
 From Delb.Ns Require Import Namespaces Prefixes.
 From Delb.Xml Require Import Plain Reader.
@@ -94,16 +94,24 @@ Definition render_attr_data (kv : str * str) : str * str := (fst kv, quote (esca
 
 (* ---- well-formed trees: what the API guarantees, the property's exclusions, the guards of the open findings
    - local names of elements and attributes and PI targets are NCNames (lxml validates them); no attribute is
-     called "xmlns" and nothing lives in the xmlns namespace (guard of finding attribute-named-xmlns);
+     called "xmlns" or lives in the xmlns namespace (what the GENERATED validator TagAttributes._validate_name
+     lets through); no element lives in the xmlns namespace (guard of the open finding
+     element-in-xmlns-namespace);
    - namespace names and attribute values consist of XML Chars other than TAB, LF, CR (the property's
      exclusion: no character references are produced), text / comments / PI content of XML Chars other than CR;
    - attributes are listed in the order the serializer writes them (sorted by namespace and local name, as
      impl.extract presents them), each expanded name once;
    - comment content passes CommentNode._validate_content (the GENERATED validator comment_content_refused of
-     Gen/GenValidators.v; RoundTrip.comment_validator_ok derives the reader-side condition comment_ok), PI content has no "?>" and does not start with white
-     space (guard of finding pi-content-leading-whitespace), the target is not "xml". *)
+     Gen/GenValidators.v; RoundTrip.comment_validator_ok derives the reader-side condition comment_ok), PI content has no "?>" and passes the GENERATED
+     validator ProcessingInstructionNode._validate_content (no leading XML white space), the target is not "xml". *)
 Definition uri_ok (n : str) : Prop := Forall attr_char_ok n.
+(* attribute names: what TagAttributes._validate_name lets through (GENERATED attribute_name_refused,
+   Gen/GenNsValidators.v): not called xmlns, not in the xmlns namespace *)
 Definition attr_wf (a : attr) : Prop :=
+  let '(ns, l, v) := a in
+  is_ncname l = true /\ attribute_name_refused ns l = false /\ uri_ok ns /\ Forall attr_char_ok v.
+(* the same with the consequences of the validator spelled out (RoundTrip.attr_wf_wf0) *)
+Definition attr_wf0 (a : attr) : Prop :=
   let '(ns, l, v) := a in
   is_ncname l = true /\ l <> XMLNS_ /\ ns <> xmlns_ns /\ uri_ok ns /\ Forall attr_char_ok v.
 Fixpoint wf_node (n : node) : Prop :=
@@ -114,7 +122,7 @@ Fixpoint wf_node (n : node) : Prop :=
       /\ (fix all (l : list node) : Prop := match l with [] => True | k :: r => wf_node k /\ all r end) kids
   | Text s => Forall text_char_ok s
   | Comment s => comment_content_refused s = false /\ Forall text_char_ok s
-  | PI t c => is_ncname t = true /\ is_xml_target t = false /\ pi_content_ok c = true /\ starts_ws c = false
+  | PI t c => is_ncname t = true /\ is_xml_target t = false /\ pi_content_ok c = true /\ pi_content_refused c = false
               /\ Forall text_char_ok c
   end.
 Definition wf_tree (t : node) : Prop := is_tag t = true /\ wf_node t.
